@@ -14,6 +14,7 @@ func init() {
 	register(&PropDef{ID: "C03", Title: "A filespace never reaches outside its root, whatever path it is given", Rules: rulesC03,
 		Explanation: "Confinement in goatcore is a lexical mechanism (varutil.ReduceAbsPath). Decided for every string parameter of every method of every type implementing filesystem.Filespace (discovered through the type checker), on all paths: R1 a parameter-derived string that is joined behind a non-constant prefix (a rebased view: base+arg) at any call argument or field store has passed ReduceAbsPath with its error checked on that path — path.Clean/CleanPath are not accepted since they keep a leading '..'; forwarders may pass a parameter on unchanged; R2 the argument that becomes the base of a child view (constructor call or base-path field store in every Filespace(sub) method) is reduced in the method or by the constructor it is handed to (constructor summary computed with the same analysis); R4 every path handed to an os / io/ioutil / filepath.Walk / package disk function from an implementer starts with the receiver's root field and its parameter part is reduced; R5 the memory tree has no parent pointers and traversals start at the root; R6 inside ReduceAbsPath the decrement for '..' is guarded by resultLen != 0 and the zero edge returns a non-nil error; R7 every value stored into a view's base-path field ends with the separator its methods rely on when they form base+name. " +
 			"R8 memfs copies share no node with their source (copyFile/copyDir return newly built nodes on every path), so a view writing its copy cannot change the rest of the parent tree; R9 path parameters pass no byte-altering string function in any implementer package or normaliser (a view rooted at '.conf' must not become 'conf'); R10 every ReduceAbsPath call sees the caller-supplied part alone, never prefix+argument (reducing the joined path lets '..' consume the view's own base). " +
+			"Added in round 4: R11 where a view's base path is set, a caller-supplied part is appended to an existing prefix (the parent view's base) only after ReduceAbsPath accepted it — flattening nested views as parent.base + Clean(arg) lets a '..' consume the parent's base; R12 (who-may-call) inside the filesystem packages only filesystem/disk and filesystem/filespace/diskfs hand paths to host primitives (os, io/ioutil, filepath.Walk...): a cache or view that writes to the local disk itself bypasses the backend's reducer. " +
 			"NOT decided: symbolic links on disk (confinement is lexical), byte-identity of the rest of the parent tree, the behaviour of user-supplied inner filespaces.",
 		Assumptions: []string{"a string built only from constants, receiver fields and reduced parameters cannot contain a climbing '..' segment (receiver base fields are themselves set by constructors checked under R2)"}})
 }
